@@ -2,9 +2,9 @@ package main
 
 import (
 	"context"
-	"runtime"
 	"crypto/ed25519"
 	"fmt"
+	"runtime"
 	"sync"
 	"time"
 
@@ -150,7 +150,49 @@ func closeStackKinds() []func() closable {
 // closeStacks: goroutines blocked in Receive / ServeAsk with contexts that never
 // expire, then Close (twice), then fresh calls: everybody must return a non-nil
 // error promptly.
+// closeWhileCallbackTells: Close is called while a Receive callback is still running and
+// that callback then sends a message through the same network (what p2pkeswarm does when it
+// answers a handshake message).  Close must return.
+func closeWhileCallbackTells(c *ctxT) {
+	for rep := 0; rep < c.scale(3, 20); rep++ {
+		realm := memswarm.NewRealm()
+		a, b := realm.NewSwarm(), realm.NewSwarm()
+		lg := &evlog{}
+		inCb := make(chan struct{})
+		cbDone := make(chan struct{})
+		go func() {
+			defer close(cbDone)
+			a.Receive(context.Background(), func(m p2p.Message[memswarm.Addr]) {
+				close(inCb)
+				time.Sleep(time.Duration(5+c.rng.Intn(30)) * time.Millisecond) // Close begins meanwhile
+				a.Tell(context.Background(), b.LocalAddrs()[0], p2p.IOVec{[]byte("reply")})
+			})
+		}()
+		b.Tell(context.Background(), a.LocalAddrs()[0], p2p.IOVec{[]byte("hello")})
+		select {
+		case <-inCb:
+		case <-time.After(2 * time.Second):
+		}
+		lg.add(sx.L(sx.S("cb")))
+		closed := make(chan struct{})
+		go func() { a.Close(); close(closed) }()
+		select {
+		case <-closed:
+		case <-time.After(6 * time.Second):
+			lg.add(sx.L(sx.S("stuck-close"), sx.I(0)))
+		}
+		lg.add(sx.L(sx.S("ce")))
+		go b.Close() // (would wait for the realm lock if a.Close is stuck)
+		lg.mu.Lock()
+		evs := append([]sx.V{}, lg.evs...)
+		lg.mu.Unlock()
+		c.emit(sx.L(sx.S("hub"), sx.S("close-in-callback"), sx.I(1), sx.I(1), sx.I(c.n)), sx.L(evs...))
+		c.count("close/in-callback")
+	}
+}
+
 func closeStacks(c *ctxT) {
+	closeWhileCallbackTells(c)
 	for _, mk := range closeStackKinds() {
 		for rep := 0; rep < c.scale(2, 12); rep++ {
 			runtime.GC()
@@ -193,7 +235,9 @@ func closeStacks(c *ctxT) {
 			}
 			time.Sleep(2 * time.Millisecond) // let them block
 			lg.add(sx.L(sx.S("cb")))
-			func() {
+			closed := make(chan struct{})
+			go func() {
+				defer close(closed)
 				defer func() {
 					if e := recover(); e != nil {
 						lg.add(sx.L(sx.S("panic"), sx.I(0)))
@@ -202,6 +246,11 @@ func closeStacks(c *ctxT) {
 				cl.closeFn()
 				cl.closeFn() // repeated Close
 			}()
+			select {
+			case <-closed:
+			case <-time.After(8 * time.Second):
+				lg.add(sx.L(sx.S("stuck-close"), sx.I(0)))
+			}
 			lg.add(sx.L(sx.S("ce")))
 			// calls made afterwards
 			start(id, cl.receive)
